@@ -159,21 +159,26 @@ def inventory(bdir, wd):
     return shapes, stats
 
 
-# statements deco87c800.c is known to print wrongly (kept out of the clean programs, exercised as feature cases and by the statement sweep)
-def known_bad_statement(m, a):
+# Five defects of deco87c800.c have been repaired in /repo (label + `h`, `alu r,n` without `h`, register name taken from the opcode,
+# endless loop at inv16 / returns with a successor, `dw` without leading zero).  The harness rewrites and the classes below stay, so that
+# the rest of a listing is still compared when one of them comes back - but their signatures are no longer known findings: a
+# regression is reported as a VIOLATION with the failing input.
+REG16_CLASS_RE = re.compile(r"^(sp,(wa|bc|de|hl)|(wa|bc|de|hl),sp)$")
+
+
+def reg16_class(m, a):
+    """statements of the class `ld sp,rr` / `ld rr,sp` / `call rr` / `jp rr` (always part of the statement sweep, and of one feature program)"""
     a = a.replace(" ", "").lower()
-    if m == "ld" and re.match(r"^sp,(wa|bc|hl)$", a):
-        return "deco87c800-reg16-name-from-opcode"
-    if m == "ld" and re.match(r"^(wa|bc|de),sp$", a):
-        return "deco87c800-reg16-name-from-opcode"
-    if m == "call" and a in ("bc", "de", "hl"):
-        return "deco87c800-reg16-name-from-opcode"
-    if m == "jp" and a in ("wa", "bc", "hl"):
-        return "deco87c800-reg16-name-from-opcode"
+    return (m == "ld" and bool(REG16_CLASS_RE.match(a))) or (m in ("call", "jp") and a in REG16)
+
+
+def known_bad_statement(m, a):
+    """signature of a statement deco87c800.c is known to print wrongly: none at present"""
     return None
 
 
-TERMINAL_FOR_DASL = re.compile(r"^\s*(jp\s|ld\s+\(hl\),\()", re.I)      # no successor address in deco87c800.c
+# no successor address in deco87c800.c: jp, the returns (since the repair), and `ld (hl),<mem>` (memory prefix 27, still so)
+TERMINAL_FOR_DASL = re.compile(r"^\s*(jp\s|ret\b|reti\b|retn\b|ld\s+\(hl\),\()", re.I)
 
 
 def build_pool(bdir, wd, rng, shapes, per_shape, name="pool"):
@@ -218,7 +223,7 @@ def build_pool(bdir, wd, rng, shapes, per_shape, name="pool"):
             bs = bytes(flat[x] for x in range(addrs[i], addrs[i + 1]))
             if not bs:
                 continue
-            out.append(dict(m=m, a=t, text="\t%s\t%s" % (m, t) if t else "\t%s" % m, bytes=bs, sig=known_bad_statement(m, t)))
+            out.append(dict(m=m, a=t, text="\t%s\t%s" % (m, t) if t else "\t%s" % m, bytes=bs, sig=known_bad_statement(m, t), reg16=reg16_class(m, t)))
     return out
 
 
@@ -235,8 +240,8 @@ def _i(kind, size, text=None, **kw):
 
 
 def gen_87c(rng, pool, feature=None):
-    """a valid program: blocks of pool statements and jumps, every block ends in something dasl treats as terminal (jp / jr) or
-    falls into the next block (ret/reti/retn: deco87c800.c keeps tracing behind them, so no data follows those)"""
+    """a valid program: blocks of pool statements and jumps, every block ends in something dasl treats as terminal
+    (jp / jr / ret / reti / retn); data may follow any of them"""
     feats = set()
     clean = [p for p in pool if p["sig"] is None and not TERMINAL_FOR_DASL.match(p["text"]) and p["m"] not in ("jp",)]
     term_ind = [p for p in pool if p["m"] == "jp" and p["sig"] is None]
@@ -259,7 +264,7 @@ def gen_87c(rng, pool, feature=None):
             else:
                 items.append(_i("call", 3))
         if feature == "reg16" and b == 0:
-            p = rng.choice([p for p in pool if p["sig"] == "deco87c800-reg16-name-from-opcode"])
+            p = rng.choice([p for p in pool if p.get("reg16") and p["m"] == "ld"])
             items.append(_i("plain", len(p["bytes"]), p["text"]))
             feats.add("reg16")
         if feature == "ld-hl-mem" and b == 0:
@@ -279,9 +284,7 @@ def gen_87c(rng, pool, feature=None):
             p = rng.choice(term_ind)
             items.append(_i("plain", len(p["bytes"]), p["text"]))
         else:
-            # returns: no data behind them
             items.append(_i("plain", 1, "\t" + rng.choice(["ret", "reti"])) if rng.random() < 0.8 else _i("plain", 2, "\tretn"))
-            continue
         if rng.random() < 0.45:
             n = rng.randrange(1, 5)
             items.append(_i("data", n, "\tdb\t%s" % ",".join(str(rng.randrange(256)) for _ in range(n))))
@@ -294,7 +297,7 @@ def gen_87c(rng, pool, feature=None):
         items.insert(1, _i("plain", 3, "\tcall\t0%04xh" % rng.choice([0x0040, 0x2345, 0xd000])))
         feats.add("call-outside")
     if feature == "ret-data":
-        # a data table directly behind `ret`: valid, but deco87c800.c gives `ret` a successor address
+        # a data table directly behind `ret` whose bytes have the shape that used to send deco87c800.c into the loop at inv16
         items.append(_i("blockstart", 0))
         items.append(_i("plain", 1, "\tnop"))
         items.append(_i("plain", 1, "\tret"))
@@ -331,26 +334,26 @@ def gen_87c(rng, pool, feature=None):
         if k == "jrs":
             t = pick(a + 2 - 16, a + 2 + 15)
             it["text"] = "\tjrs\t%s,%s" % (it["cond"], "L%04X" % t if t is not None else "$")
-            jumps.append((a, "jrs", it["cond"], a if t is None else t, 1))
+            jumps.append((a, "jrs", it["cond"], a if t is None else t, 1, it["text"], None if t is None else "L%04X" % t))
         elif k == "jr":
             t = pick(a + 2 - 128, a + 2 + 127)
             it["text"] = "\tjr\t%s,%s" % (it["cond"], "L%04X" % t if t is not None else "$")
-            jumps.append((a, "jr", it["cond"], a if t is None else t, 2))
+            jumps.append((a, "jr", it["cond"], a if t is None else t, 2, it["text"], None if t is None else "L%04X" % t))
         elif k == "jrt":
             t = pick(a + 2 - 128, a + 2 + 127)
             it["text"] = "\tjr\t%s" % ("L%04X" % t if t is not None else "$")
-            jumps.append((a, "jr", None, a if t is None else t, 2))
+            jumps.append((a, "jr", None, a if t is None else t, 2, it["text"], None if t is None else "L%04X" % t))
         elif k == "jpt":
             t = pick()
             it["text"] = "\tjp\tL%04X" % t
-            jumps.append((a, "jp", None, t, 3))
+            jumps.append((a, "jp", None, t, 3, it["text"], "L%04X" % t))
         elif k == "call":
             t = pick(None, 0xfeff)
             if t is None:
                 it["text"] = "\tld\tsp,01234h"
             else:
                 it["text"] = "\tcall\tL%04X" % t
-                jumps.append((a, "call", None, t, 3))
+                jumps.append((a, "call", None, t, 3, it["text"], "L%04X" % t))
         elif k == "callp":
             t = pick(0xff00, None)
             if t is None:
@@ -360,18 +363,18 @@ def gen_87c(rng, pool, feature=None):
                 it["text"] = "\tcallp\t0%04xh" % t
                 feats.add("callp")
                 feats.add("callp-forward")
-                jumps.append((a, "callp", None, t, 2))
+                jumps.append((a, "callp", None, t, 2, None, None))
             else:
                 it["text"] = "\tcallp\tL%04X" % t
                 feats.add("callp")
-                jumps.append((a, "callp", None, t, 2))
+                jumps.append((a, "callp", None, t, 2, it["text"], "L%04X" % t))
         elif k == "callv":
             v = it["vec"]
             if v not in vectors:
                 vectors[v] = pick()
             it["text"] = "\tcallv\t%d" % v
             feats.add("callv")
-            jumps.append((a, "callv", None, v, 1))
+            jumps.append((a, "callv", None, v, 1, it["text"], "-"))
     lines = []
     seen = set()
     for it in items:
@@ -445,6 +448,10 @@ def rewrite_text(txt, names=()):
 
 REWRITE_SIG = {"label-h-suffix-removed": "deco87c800-label-h-suffix", "imm8-h-suffix-added": "deco87c800-imm8-without-h",
                "dw-leading-zero-added": "deco87c800-dw-without-leading-zero"}
+
+
+# a jump/call line of a listing whose operand is a label dasl invented (value = the hex digits of its name), or callv <n>
+PRINTED_JUMP_RE = re.compile(r"^(jrs|jr|jp|call|callp|callv)\t(?:(?:([a-z]+),)?((?:lab|sub|subv)_([0-9A-Fa-f]{4}))|(\d+)\t ; .*)$")
 
 
 def chunks_txt(cs):
@@ -539,11 +546,26 @@ def run_case(bdir, wd, idx, case, load, lower, timeout=20):
         for i_, x_ in enumerate(d_):
             flat[st_ + i_] = x_
     jreqs = []
-    for a, memo, cond, t, n in case.get("jumps", []):
+    for a, memo, cond, t, n, text, label in case.get("jumps", []):
         bs = bytes(flat.get(a + i, 0) for i in range(n))
-        jreqs.append(("jmp %d %s %s %d %s" % (a, memo, cond or "-", t, bs.hex()), "%s %s,%04X @%04X" % (memo, cond or "-", t, a)))
+        tail = " %s %s" % (text.strip("\t").encode("latin-1").hex(), label) if (text and label) else ""
+        jreqs.append(("jmp %d %s %s %d %s%s" % (a, memo, cond or "-", t, bs.hex(), tail), "%s %s,%04X @%04X" % (memo, cond or "-", t, a)))
     req = "run %d %s %d %s %d %s %s %s" % (1 if lower else 0, chunks_txt(image), len(etoks), " ".join(etoks), rc if isinstance(rc, int) else 99,
                                          so.hex() or "-", se.hex() or "-", ("none" if re2 is None else chunks_txt(re2)))
+    # the jump/call lines dasl printed, for A87C.assembleText (the statement of C15_87c_jump_text_roundtrip on the real text)
+    imgflat = {}
+    for st_, d_ in image:
+        for i_, x_ in enumerate(d_):
+            imgflat[st_ + i_] = x_
+    for a, (text, n) in sorted(parse_listing(so).items()):
+        m = PRINTED_JUMP_RE.match(text.decode("latin-1"))
+        if not m:
+            continue
+        memo, cond, lab, hexv, vec = m.group(1), m.group(2), m.group(3), m.group(4), m.group(5)
+        t = int(vec) if memo == "callv" else int(hexv, 16)
+        bs = bytes(imgflat.get(a + i, 0) for i in range(n))
+        jreqs.append(("jmp %d %s %s %d %s %s %s" % (a, memo, cond or "-", t, bs.hex(), text.hex(), lab or "-"),
+                      "printed `%s` @%04X" % (text.decode("latin-1"), a)))
     return dict(req=req, info=info, unchanged_ok=re1 is not None and not rewrites, rewritten_ok=re2 is not None, rewrites=rewrites, jreqs=jreqs)
 
 
@@ -767,7 +789,7 @@ def run_part(args, bdir, ok):
                 unchanged_reassembly_ok=0, rewritten=0, rewrites={},
                 stmt_instructions=0, stmt_roundtrip_ok=0, stmt_roundtrip_ok_unchanged=0, stmt_known_bad=0, stmt_distinct_opcode_pairs=0,
                 sweep_batches=0, sweep_instructions=0, sweep_first_bytes=0, sweep_byte_pairs=0, sweep_unknown=0, hang_probe=None,
-                jump_statements=0, jump_rejected_by_asl=0)
+                jump_statements=0, jump_rejected_by_asl=0, jump_text_statements=0)
     samples, stmt_samples, distinct = [], [], set()
     rng = common.rng_for(args.seed, "C15-87C")
     quick = args.tier == "quick"
@@ -840,7 +862,7 @@ def run_part(args, bdir, ok):
 
         # ---- statements: every pool statement on a raster
         st_reqs, st_metas = [], []
-        stmts = pool if not quick else [p for i, p in enumerate(pool) if p["sig"] or (i + args.seed) % 3 == 0]
+        stmts = pool if not quick else [p for i, p in enumerate(pool) if p["sig"] or p.get("reg16") or (i + args.seed) % 3 == 0]
         st_batches = [stmts[i:i + RASTER] for i in range(0, len(stmts), RASTER)]
         st_run_reqs = []
         for bi, batch in enumerate(st_batches):
@@ -998,6 +1020,9 @@ def run_part(args, bdir, ok):
         dist["jump_rejected_by_asl"] = dist.get("jump_rejected_by_asl", 0) + int(kv["dec"] == "none")
         if kv["enc"] != "eq":
             corr_fail.append(dict(tag=tag, why="the bytes asl makes of `%s` differ from A87C.encode (model: %s)" % (desc, kv.get("masm"))))
+        dist["jump_text_statements"] = dist.get("jump_text_statements", 0) + int(kv.get("txt") in ("eq", "ne"))
+        if kv.get("txt") in ("ne", "err"):
+            corr_fail.append(dict(tag=tag, why="the bytes asl makes of the source line of `%s` differ from A87C.assembleText" % desc))
         if kv["rt"] == "fail" or kv["dec"] == "ne":
             corr_fail.append(dict(tag=tag, why="`%s`: what M87C prints for these bytes does not re-encode to them (A87C.jumpStmt/encode), "
                                   "against C15_87c_jump_roundtrip_partial" % desc))
